@@ -29,6 +29,10 @@ TSh ==
          parsed == IF parsed0 # Error /\ Len(parsed0) = 1 THEN <<Cmd(Ev, parsed0[1])>> ELSE parsed0
          viol == V(parsed = Ev.stages, "C19_shell_reads_back_the_command")
                  \cup V(Ev.debug_matches, "C19_debug_output_is_the_command_line")
+                 \* the alternate Debug form ({:#?}, what dbg!() prints) is a command line shown, too
+                 \cup V(LET a0 == IF "env" \in DOMAIN Ev THEN ShSplitAssign(Ev.alt) ELSE ShSplit(Ev.alt)
+                            a == IF a0 # Error /\ Len(a0) = 1 THEN <<Cmd(Ev, a0[1])>> ELSE a0
+                        IN a = Ev.stages, "C19_alternate_debug_output_reads_back")
                  \cup V(Ev.asked_sh => Ev.sh_runs = 1 /\ Ev.sh_argv = Ev.stages[1], "C19_real_sh_reads_back_the_command")
          \* the model of sh and the installed sh must agree whenever the model accepts the line
          san == V(Ev.asked_sh /\ parsed # Error /\ Len(parsed) = 1 /\ Ev.sh_runs = 1 => Ev.sh_argv = parsed[1], "sh_model_differs_from_real_sh")
